@@ -28,7 +28,9 @@ RULE = ("part 1: the full product interpreter mode {normal,-O,-OO} x ICONTRACT_S
         "DBC class, class with __repr__ and a property), one subprocess per (mode, environment); non-trivial = the row "
         "is disabled in that configuration or enabled under -O/-OO.  part 2: generated checker-cluster programs (see C01) "
         "rendered with enabled=True spelled out and run under normal, -O and -OO; the complete observation (events, "
-        "outcome) must be the same in all three and the same as the default rendering in the normal interpreter.")
+        "outcome) must be the same in all three and the same as the default rendering in the normal interpreter.  part 3: "
+        "histories of definitions (see C04) rendered with enabled=True spelled out: which definitions raise and what "
+        "every function and class shows afterwards must be the same under normal, -O and -OO.")
 
 
 def all_rows():
@@ -172,6 +174,37 @@ def run(tier, replay=None):
         dist["programs/raise"] = sum(1 for o in ref if "defn_error" not in o and o["outcome"][0] == "raise")
         dist["programs/ret"] = live - dist["programs/raise"]
 
+    # ---- part 3: histories of definitions (what the decorators and the meta-class accept, reject and build) with
+    # enabled=True spelled out: the same in every interpreter mode
+    nelab = 0
+    rp3 = json.load(open(replay)) if replay else {}
+    if not replay or "ops" in rp3.get("case", {}):
+        import elab_cluster as E
+        import gen_elab
+        hist = [rp3["case"]] if replay else E.default_gen(rng, 150 if tier == "quick" else 3000)
+        nelab = len(hist)
+
+        def observe_elab(pyflags, explicit):
+            payloads = [{"cases": hist[i:i + 50], "explicit_enabled": explicit} for i in range(0, len(hist), 50)]
+            res = []
+            for r in C.run_impl_parallel("impl_elab.py", payloads, pyflags=pyflags):
+                res.extend(r)
+            return [E.strip(o) if not isinstance(o, dict) else o for o in res]
+        ref3 = observe_elab((), False)
+        elab_diffs = []
+        for name, flags in (("normal, enabled=True spelled out", ()), ("-O, enabled=True spelled out", ("-O",)),
+                            ("-OO, enabled=True spelled out", ("-OO",))):
+            for c, a, b in zip(hist, ref3, observe_elab(flags, True)):
+                if a != b:
+                    elab_diffs.append((name, c, a, b))
+        gen_elab.EXPLICIT_ENABLED = True
+        for name, c, a, b in elab_diffs[:2]:
+            out.violation("explicitly enabled definitions are accepted, rejected or built differently under %s" % name,
+                          {"case": c, "observation_normal": a, "observation": b, "configuration": name,
+                           "script": E.source_of(c), "how": "./check C15 --replay <this file>"})
+        gen_elab.EXPLICIT_ENABLED = False
+        mode_diffs += elab_diffs
+
     if problems and not out.violations:
         out.violation("; ".join(problems), {"no_longer_checks": problems}, found_input=False)
     cov = out.coverage
@@ -184,6 +217,7 @@ def run(tier, replay=None):
         "configurations": len(configs),
         "rows_per_configuration": len(rows),
         "programs_rerun_in_each_mode": n,
+        "definition_histories_rerun_in_each_mode": nelab,
         "spec_failures_on_implementation": len(spec_fail) + len(flag_fail) + len(cross) + len(mode_diffs),
         "distribution": dict(dist.most_common(60)),
         "samples": [{"mode": m[0], "env": e[0], "row": row, "observation": o} for m, e, row, o in index[:2] + index[-1:]],
